@@ -168,9 +168,180 @@ macro_rules! by_type {
     };
 }
 
+fn aead_of(v: &Value) -> AeadPack {
+    // {"n": first nonce byte, "c": single ciphertext byte}
+    let mut nonce = [0u8; 12];
+    nonce[0] = v.get("n").and_then(|x| x.as_u64()).unwrap_or(0) as u8;
+    AeadPack {
+        nonce: sos_core::crypto::Nonce::Nonce12(nonce),
+        ciphertext: vec![v.get("c").and_then(|x| x.as_u64()).unwrap_or(0) as u8],
+    }
+}
+
+fn uuid_of(sel: u64) -> uuid::Uuid {
+    let mut b = [0u8; 16];
+    b[0] = sel as u8;
+    uuid::Uuid::from_bytes(b)
+}
+
+fn commit_of(v: &Value) -> VaultCommit {
+    let mut h = [0u8; 32];
+    h[0] = v.get("h").and_then(|x| x.as_u64()).unwrap_or(0) as u8;
+    VaultCommit(CommitHash(h), VaultEntry(aead_of(&v["m"]), aead_of(&v["s"])))
+}
+
+fn write_event_of(v: &Value) -> WriteEvent {
+    use sos_core::VaultFlags;
+    match v.get("kind").and_then(|x| x.as_str()).unwrap_or("") {
+        "name" => WriteEvent::SetVaultName(v["name"].as_str().unwrap().to_string()),
+        "flags" => WriteEvent::SetVaultFlags(VaultFlags::from_bits_truncate(v["bits"].as_u64().unwrap())),
+        "meta" => WriteEvent::SetVaultMeta(aead_of(&v["aead"])),
+        "create" => WriteEvent::CreateSecret(uuid_of(v["id"].as_u64().unwrap()), commit_of(&v["value"])),
+        "update" => WriteEvent::UpdateSecret(uuid_of(v["id"].as_u64().unwrap()), commit_of(&v["value"])),
+        "delete" => WriteEvent::DeleteSecret(uuid_of(v["id"].as_u64().unwrap())),
+        k => panic!("unknown event kind {}", k),
+    }
+}
+
+fn base_vault(h: &Value) -> Vault {
+    use sos_core::VaultFlags;
+    let mut vault: Vault = Default::default();
+    vault.set_name(h["name"].as_str().unwrap_or("").to_string());
+    *vault.flags_mut() = VaultFlags::from_bits_truncate(h["flags"].as_u64().unwrap_or(0));
+    if !h["meta"].is_null() {
+        vault.header_mut().set_meta(Some(aead_of(&h["meta"])));
+    }
+    vault
+}
+
+async fn vault_summary(v: &Vault) -> Value {
+    let meta = match v.header().meta() {
+        Some(m) => hex::encode(encode(m).await.unwrap()),
+        None => String::new(),
+    };
+    let mut secrets = vec![];
+    for (id, c) in v.iter() {
+        secrets.push(format!("{}={}", id, hex::encode(encode(c).await.unwrap())));
+    }
+    secrets.sort();
+    json!({"name": v.name(), "flags": v.flags().bits(), "meta": meta, "secrets": secrets})
+}
+
+type FsLog = sos_filesystem::FolderEventLog<sos_filesystem::Error>;
+
+async fn folder_log(events: &[WriteEvent]) -> (std::path::PathBuf, FsLog) {
+    use sos_core::events::EventLog;
+    let path = tmp_path("log");
+    let _ = std::fs::remove_file(&path);
+    let mut log = FsLog::new_folder(
+        &path,
+        sos_core::AccountId::random(),
+        sos_core::events::EventLogType::Folder(uuid_of(9)),
+    )
+    .await
+    .unwrap();
+    log.apply(events).await.unwrap();
+    (path, log)
+}
+
+/// reduce+build vs reduce+compact+reduce+build on a real file-system event log
+async fn compact_case(case: &Value) -> Value {
+    use sos_reducers::FolderReducer;
+    let vault = base_vault(&case["header_concrete"]);
+    let mut events = vec![vault.into_event().await.unwrap()];
+    for e in case["events_concrete"].as_array().unwrap() {
+        events.push(write_event_of(e));
+    }
+    let (p1, log) = folder_log(&events).await;
+    let full = FolderReducer::new().reduce(&log).await.unwrap().build(true).await.unwrap();
+    let compacted = FolderReducer::new().reduce(&log).await.unwrap().compact().await.unwrap();
+    let (p2, log2) = folder_log(&compacted).await;
+    let again = FolderReducer::new().reduce(&log2).await.unwrap().build(true).await.unwrap();
+    let a = vault_summary(&full).await;
+    let b = vault_summary(&again).await;
+    let _ = std::fs::remove_file(p1);
+    let _ = std::fs::remove_file(p2);
+    json!({"outcome":"ok",
+        "name_before": a["name"], "name_after": b["name"],
+        "flags_before": a["flags"], "flags_after": b["flags"],
+        "meta_before": a["meta"], "meta_after": b["meta"],
+        "secrets_before": a["secrets"], "secrets_after": b["secrets"],
+        "compact_len": compacted.len(), "live": full.len()})
+}
+
+static TMP_COUNTER: std::sync::atomic::AtomicUsize = std::sync::atomic::AtomicUsize::new(0);
+
+fn tmp_path(tag: &str) -> std::path::PathBuf {
+    let dir = std::env::var("VERIF_TMP").unwrap_or_else(|_| "/verif/.work/tmp".to_string());
+    let _ = std::fs::create_dir_all(&dir);
+    let n = TMP_COUNTER.fetch_add(1, std::sync::atomic::Ordering::Relaxed);
+    std::path::PathBuf::from(dir).join(format!("{}-{}-{}", tag, std::process::id(), n))
+}
+
+async fn format_stream<T>(case: &Value) -> Value
+where
+    T: sos_filesystem::formats::FileItem + Send + 'static,
+{
+    use sos_filesystem::formats::{FormatStream, FormatStreamIterator};
+    static IDENT: [u8; 4] = [0x53, 0x4f, 0x53, 0x00];
+    let bytes = hexbytes(case, "bytes");
+    let reverse = case.get("reverse").and_then(|v| v.as_bool()).unwrap_or(false);
+    let prefix = case.get("prefix").and_then(|v| v.as_bool()).unwrap_or(true);
+    let header_offset = case.get("header_offset").and_then(|v| v.as_u64()).unwrap_or(4);
+    let limit = case.get("limit").and_then(|v| v.as_u64()).unwrap_or(4) as usize;
+    let path = tmp_path("fmt");
+    std::fs::write(&path, &bytes).unwrap();
+    let res = async {
+        let file = sos_vfs::File::open(&path).await.map_err(|e| e.to_string())?;
+        let mut it = FormatStream::<T, sos_vfs::File>::new_file(file, &IDENT, prefix, Some(header_offset), reverse)
+            .await
+            .map_err(|e| e.to_string())?;
+        let mut count = 0usize;
+        let mut offsets = vec![];
+        let end;
+        loop {
+            if count >= limit {
+                end = "limit";
+                break;
+            }
+            match it.next().await {
+                Ok(Some(item)) => {
+                    offsets.push(json!([item.offset().start, item.offset().end, item.value().start, item.value().end]));
+                    count += 1;
+                }
+                Ok(None) => {
+                    end = "none";
+                    break;
+                }
+                Err(_) => {
+                    end = "err";
+                    break;
+                }
+            }
+        }
+        Ok::<_, String>(json!({"outcome":"ok","count":count,"end":end,"offsets":offsets}))
+    }
+    .await;
+    let _ = std::fs::remove_file(&path);
+    match res {
+        Ok(v) => v,
+        Err(e) => json!({"outcome":"err","detail":e}),
+    }
+}
+
 pub async fn run(case: &Value) -> Value {
     let op = case.get("op").and_then(|v| v.as_str()).unwrap_or("");
     match op {
+        "compact" => compact_case(case).await,
+        "format_stream" => {
+            let ty = case.get("ty").and_then(|v| v.as_str()).unwrap_or("");
+            match ty {
+                "EventLogRecord" => format_stream::<sos_filesystem::formats::EventLogRecord>(case).await,
+                "VaultRecord" => format_stream::<sos_filesystem::formats::VaultRecord>(case).await,
+                "FileRecord" => format_stream::<sos_filesystem::formats::FileRecord>(case).await,
+                _ => json!({"outcome":"unsupported"}),
+            }
+        }
         "roundtrip" => {
             let ty = case.get("ty").and_then(|v| v.as_str()).unwrap_or("");
             let bytes = hexbytes(case, "bytes");
